@@ -1853,7 +1853,7 @@ func (c *Ctx) mapEqualityShape(g *ssa.Function) bool {
 
 // isOrServesOnly: f is one of the named functions, or an unexported module function all of whose callers (call graph,
 // up to three levels) are: a helper that exists only to serve the named functions inherits what was reviewed for them.
-func (c *Ctx) isOrServesOnly(f *ssa.Function, names ...string) bool {
+func (c *Prog) isOrServesOnly(f *ssa.Function, names ...string) bool {
 	set := map[string]bool{}
 	for _, n := range names {
 		set[n] = true
